@@ -108,6 +108,9 @@ func explore(r *runner.Run, i, n int, deadline time.Time) *shardReply {
 		rep.Counters["bounded_refused_on_full_queue"] += res.refusedOnFull
 		rep.Counters["bounded_refused_with_evictable_messages_drop_oldest"] += res.refusedAfterEvictable
 		rep.Counters["bounded_deliveries_of_survivors"] += res.survivorsDelivered
+		for k, v := range res.extra {
+			rep.Counters[k] += v
+		}
 		for k, v := range res.via {
 			rep.Via[k] += v
 		}
